@@ -51,7 +51,11 @@ func callsNamedIn(f *ssa.Function, name string) []*ssa.Call {
 }
 
 func checkC08(c *Ctx) {
+	defer c08DigestCover(c)
+	defer c10Host(c)
 	c.Decided = append(c.Decided,
+		"G-C08-skxcover: sha1Hash, md5SHA1Hash and hashForServerKeyExchange consume their list of slices whole (no sub-slice of the parameter): the randoms stay inside the signed digest",
+		"G-C10-host (shared with C10): the server-name check — VerifyHostname and matchHostnames: equal label counts, '*' only as the whole left-most label, every other label equal",
 		"G-C08-chain: on both client paths the server chain is verified (Verify error aborts; Roots, DNSName and CurrentTime come from the Config) before the peer certificates are recorded, the only bypass being InsecureSkipVerify",
 		"G-C08-ske: the GMSSL client cannot build its ClientKeyExchange without a ServerKeyExchange that passed processServerKeyExchange; that function rejects a signature that does not verify under the signing certificate's key over client_random || server_random || encryption certificate, and the server signs the same bytes",
 		"G-C08-finished: every readFinished compares the peer's verify_data with the locally computed one in constant time (and its length) and rejects a mismatch; no success bypasses the comparison",
